@@ -4,6 +4,7 @@ import (
 	"encoding/json"
 	"errors"
 	"fmt"
+	"math"
 	"runtime"
 	"sort"
 	"strings"
@@ -63,7 +64,14 @@ func (e procErr) Error() string { return fmt.Sprintf("operation error %d", e.n) 
 
 func (o procOp) Operation() (interface{}, error) {
 	if o.v <= panicBase {
-		panic(fmt.Sprintf("operation %d panics", panicBase-o.v))
+		k := panicBase - o.v
+		if k%2 == 1 {
+			// a runtime error (an index out of range that names the operation)
+			// rather than an explicit panic
+			var a []int
+			_ = a[k]
+		}
+		panic(fmt.Sprintf("operation %d panics", k))
 	}
 	if o.v < 0 {
 		return nil, procErr{-o.v}
@@ -166,6 +174,14 @@ func runProcessor(t *testing.T, c *Case, o RunOpts) *Result {
 						var pn int
 						if errors.As(err, &pe) && v == nil {
 							got = append(got, -pe.n)
+						} else if i := strings.Index(err.Error(), "index out of range ["); i >= 0 && v == nil {
+							// the recovered runtime error of an odd-numbered panicking operation
+							if _, e2 := fmt.Sscanf(err.Error()[i:], "index out of range [%d]", &pn); e2 == nil {
+								got = append(got, panicBase-pn)
+							} else {
+								sim.Fail("oracle", "processor-result", fmt.Sprintf("unexpected result (%v, %v)", v, err))
+								got = append(got, 0)
+							}
 						} else if i := strings.Index(err.Error(), "operation "); i >= 0 && v == nil {
 							if _, e2 := fmt.Sscanf(err.Error()[i:], "operation %d panics", &pn); e2 == nil {
 								got = append(got, panicBase-pn) // the recovered panic of that operation
@@ -460,6 +476,10 @@ func genMap(r *simrt.RNG) *Case {
 	}
 	if r.Intn(15) == 0 {
 		pl.Threads = r.Pick(9, 12, 40) // more than GOMAXPROCS: clamped for the workers, not for the chunk size
+	}
+	if r.Intn(40) == 0 {
+		// "any number of worker threads": the far end of int
+		pl.Threads = r.Pick(math.MaxInt, math.MaxInt-1, math.MaxInt-pl.Len, math.MaxInt32, math.MaxInt32+1, 1<<40)
 	}
 	if r.Intn(5) == 0 {
 		pl.MaxChunk = r.Range(1, 20)
